@@ -58,6 +58,8 @@ func Check(p *plan.Plan, r *runner.Result) []Violation {
 		return nil
 	}
 	c.generic()
+	c.tapFindings()
+	c.allocBound()
 	switch {
 	case p.Scen.Loader != nil:
 		c.loaderHistory()
